@@ -814,7 +814,7 @@ func run(c *fw.Ctx) {
 			runConfigs(c, i, true)
 		}
 	}
-	n2 := c.Pick(64, 2000)
+	n2 := c.Pick(200, 3000)
 	for i := 0; i < n2; i++ {
 		if c.Mine(i) {
 			runLimits(c, i, true)
